@@ -1,8 +1,10 @@
 package d2oracle
 
 import (
+	"strconv"
 	"strings"
 
+	"oss.terrastruct.com/d2/d2ast"
 	"oss.terrastruct.com/d2/d2compiler"
 	"oss.terrastruct.com/d2/d2format"
 	"oss.terrastruct.com/d2/d2graph"
@@ -595,7 +597,7 @@ func VerifC40Deltas() {
 
 // ---- C41: edits addressed to a board stay within that board
 
-const oBoardsText = "a: LA\nb: LB\na -> b: LE\nlayers: {\n  l: {\n    c: LC\n    d: LD\n    c -> d: LF\n  }\n  k: {\n    e: LK\n  }\n}\nscenarios: {\n  s: {\n    f: LG\n    a -> f: LH\n  }\n}\n"
+const oBoardsText = "a: LA\nb: LB\na -> b: LE\nlayers: {\n  l: {\n    c: LC\n    d: LD\n    c -> d: LF\n  }\n  k: {\n    e: LK\n  }\n}\nscenarios: {\n  s: {\n    f: LG\n    a -> f: LH\n    b.style.opacity: 0.4\n    (a -> b)[0].style.opacity: 0.4\n  }\n}\n"
 
 func oBoardBodies(g *d2graph.Graph) map[string]string {
 	out := map[string]string{"root": d2compiler.VBody(g, false)}
@@ -664,4 +666,87 @@ func VerifC41Boards() {
 		nd.Assert(after[k] == v, "an edit addressed to one board changed another board")
 	}
 	oStable(g2)
+}
+
+// ---- C36 (import update): UpdateImport rewrites or removes every import of a
+// path and nothing else, and its result is compilable and formatter-stable.
+
+func oImports(n d2ast.Node, out map[string]int) {
+	if imp, ok := n.(*d2ast.Import); ok {
+		out[imp.PathWithPre()]++
+	}
+	for _, ch := range n.Children() {
+		oImports(ch, out)
+	}
+}
+
+// VerifC36Imports: a program of 1..K statements from a menu of import forms
+// (spread at file level and inside a container, as a value, as a primary value
+// next to a map, of the path being changed and of another path) and plain
+// statements; the path is removed, renamed or moved into a directory.
+func VerifC36Imports() {
+	menu := []string{"...@shared", "x: @shared", "...@other", "y: @other", "z: {\n  ...@shared\n  w\n}", "t: [...@shared; 1]", "p", "q: {\n  r: @shared\n}", "...@dir/shared", "u: @dir/other"}
+	k := nd.Choose("k", 1, nd.Param("K", 3))
+	var text string
+	inArray := false
+	for i := 0; i < k; i++ {
+		st := nd.Choose("st"+strconv.Itoa(i), 0, len(menu)-1)
+		inArray = inArray || st == 5
+		text += menu[st] + "\n"
+	}
+	old := []string{"shared", "dir/", "dir/shared"}[nd.Choose("old", 0, 2)]
+	var newPath *string
+	if nd.Bool("rename") {
+		np := []string{"moved", "lib/moved", "lib/", "../up"}[nd.Choose("new", 0, 3)]
+		// a directory is renamed to a directory, a file to a file
+		nd.Assume(strings.HasSuffix(old, "/") == strings.HasSuffix(np, "/"))
+		newPath = &np
+	}
+	ast0, err := d2parser.Parse("index.d2", strings.NewReader(text), nil)
+	nd.Assert(err == nil, "the program parses")
+	before := map[string]int{}
+	oImports(ast0, before)
+	res, err := UpdateImport(text, old, newPath)
+	nd.Assert(err == nil, "UpdateImport succeeds on a program that parses")
+	nd.Cover("updated")
+	ast1, err := d2parser.Parse("index.d2", strings.NewReader(res), nil)
+	nd.Assert(err == nil, "the result of an import update parses")
+	nd.Assert(d2format.Format(ast1) == res, "the formatter leaves the result of an import update unchanged")
+	after := map[string]int{}
+	oImports(ast1, after)
+	// reference: every import of the old path (or below the old directory) is gone or renamed, the others are kept
+	want := map[string]int{}
+	for p, c := range before {
+		hit := p == old || (strings.HasSuffix(old, "/") && strings.HasPrefix(p, old))
+		switch {
+		case !hit:
+			want[p] += c
+		case newPath == nil:
+		case strings.HasSuffix(old, "/"):
+			want[*newPath+p[len(old):]] += c
+		default:
+			want[*newPath] += c
+		}
+	}
+	for p, c := range want {
+		nd.Assert(after[p] == c, "an import that should have been kept or renamed is missing after the update")
+	}
+	for p, c := range after {
+		nd.Assert(want[p] == c, "an import of the old path survives the update (or an import appeared)")
+	}
+	// with the old file gone and the new one in place the result compiles
+	files := map[string]string{"other.d2": "o1\n", "dir/other.d2": "o2\n", "moved.d2": "m\n", "lib/moved.d2": "m\n", "lib/shared.d2": "m\n", "lib/other.d2": "o3\n", "../up.d2": "m\n"}
+	for p := range after {
+		if _, ok := files[p+".d2"]; !ok {
+			files[p+".d2"] = "s\n"
+		}
+	}
+	delete(files, old+".d2")
+	if inArray {
+		// a file cannot be spread into an array (only an array inside it can): such programs are
+		// rejected by the compiler before and after the update, only the rewriting is checked
+		return
+	}
+	_, _, err = d2compiler.Compile("index.d2", strings.NewReader(res), &d2compiler.CompileOptions{FS: d2compiler.VFS(files)})
+	nd.Assert(err == nil, "the result of an import update compiles once the file has moved")
 }
